@@ -657,8 +657,21 @@ def limit_arm_exact(chk, prog):
             if not (isinstance(node, ast.If) and node.body and isinstance(node.body[-1], ast.Return) and node.body[-1].value is not None):
                 continue
             rv = node.body[-1].value
+            def _literal_name(x):
+                # a module-level constant:  _IDENTITY_ELEMENTS = (1.0, 0.0, 0.0, 0.0)
+                if not isinstance(x, ast.Name):
+                    return False
+                r = f.module.resolve_name(x.id)
+                if isinstance(r, tuple) and r and r[0] == "assign":
+                    try:
+                        ast.literal_eval(r[3] if not isinstance(r[3], ast.Assign) else r[3].value)
+                        return True
+                    except Exception:
+                        return False
+                return False
             const_arm = isinstance(rv, ast.Call) and ast.unparse(rv.func).split(".")[-1] in ("array", "zeros", "ones") and \
-                not any(isinstance(x, (ast.Name, ast.Attribute)) and not (isinstance(x, ast.Name) and x.id in ("np", "numpy")) and not (isinstance(x, ast.Attribute) and isinstance(x.value, ast.Name) and x.value.id in ("np", "numpy"))
+                not any(isinstance(x, (ast.Name, ast.Attribute)) and not (isinstance(x, ast.Name) and (x.id in ("np", "numpy", "float") or _literal_name(x)))
+                        and not (isinstance(x, ast.Attribute) and isinstance(x.value, ast.Name) and x.value.id in ("np", "numpy"))
                         for a in list(rv.args) + [k.value for k in rv.keywords] for x in ast.walk(a))
             if not const_arm:
                 continue
